@@ -8,10 +8,13 @@ import (
 	"context"
 	"encoding/hex"
 	"encoding/json"
+	"errors"
 	"fmt"
 	"io"
 	"math/rand/v2"
 	"net/http"
+	"os"
+	"path/filepath"
 	"strings"
 	"time"
 
@@ -28,6 +31,7 @@ type repoSpec struct {
 	Client    string `json:"client"`     // auth | plain
 	MediaType string `json:"media_type"` // manifests
 	Referrers string `json:"referrers"`  // unknown | supported
+	Offset    int    `json:"offset,omitempty"` // *-tail contents: the content starts at this offset of a larger stream
 }
 
 const dockerManifest = "application/vnd.docker.distribution.manifest.v2+json"
@@ -42,7 +46,9 @@ func randRepoSpec(rng *rand.Rand) repoSpec {
 		s.Token = append(s.Token, concrete(rng, []string{"ok", "RS", "timeout", "429RA"}[rng.IntN(4)]))
 	}
 	s.Op = []string{"blob", "blob", "manifest", "manifest", "manifest-ref"}[rng.IntN(5)]
-	s.Content = []string{"bytes", "strings", "buffer", "nopcloser-bytes", "oneshot", "oneshot", "oneshot-nopcloser"}[rng.IntN(7)]
+	s.Content = []string{"bytes", "strings", "buffer", "nopcloser-bytes", "oneshot", "oneshot", "oneshot-nopcloser",
+		"seeker-tail", "seeker-tail", "nopcloser-seeker-tail", "file-tail", "seeker-whole"}[rng.IntN(12)]
+	s.Offset = 1 + rng.IntN(5000)
 	s.Client = []string{"auth", "auth", "auth", "plain"}[rng.IntN(4)]
 	s.Size = randSize(rng)
 	if s.Size > 300000 {
@@ -59,6 +65,76 @@ func randRepoSpec(rng *rand.Rand) repoSpec {
 	fillPacing(&s.caseSpec, rng)
 	s.Method = "PUT"
 	return s
+}
+
+// seekReader is a caller-owned stream (not one of net/http's replayable
+// built-ins) that can seek; the content to push is its tail from the current
+// position.
+type seekReader struct {
+	data []byte
+	pos  int64
+}
+
+func (s *seekReader) Read(p []byte) (int, error) {
+	if s.pos >= int64(len(s.data)) {
+		return 0, io.EOF
+	}
+	n := copy(p, s.data[s.pos:])
+	s.pos += int64(n)
+	return n, nil
+}
+
+func (s *seekReader) Seek(off int64, whence int) (int64, error) {
+	switch whence {
+	case io.SeekCurrent:
+		off += s.pos
+	case io.SeekEnd:
+		off += int64(len(s.data))
+	}
+	if off < 0 {
+		return 0, errors.New("seekReader: negative position")
+	}
+	s.pos = off
+	return off, nil
+}
+
+// repoContentFor builds the content reader; cleanup releases what it holds.
+func repoContentFor(kind string, data []byte, offset int, rng *rand.Rand) (io.Reader, func(), error) {
+	none := func() {}
+	switch kind {
+	case "seeker-whole":
+		return &seekReader{data: data}, none, nil
+	case "seeker-tail", "nopcloser-seeker-tail":
+		stream := append(payload(rng, offset), data...)
+		sr := &seekReader{data: stream, pos: int64(offset)}
+		if kind == "nopcloser-seeker-tail" {
+			return io.NopCloser(sr), none, nil
+		}
+		return sr, none, nil
+	case "file-tail":
+		dir, err := os.MkdirTemp("", "verif-C17-file-")
+		if err != nil {
+			return nil, none, err
+		}
+		cleanup := func() { os.RemoveAll(dir) }
+		path := filepath.Join(dir, "stream")
+		if err := os.WriteFile(path, append(payload(rng, offset), data...), 0o600); err != nil {
+			cleanup()
+			return nil, none, err
+		}
+		f, err := os.Open(path)
+		if err != nil {
+			cleanup()
+			return nil, none, err
+		}
+		if _, err := f.Seek(int64(offset), io.SeekStart); err != nil {
+			f.Close()
+			cleanup()
+			return nil, none, err
+		}
+		return f, func() { f.Close(); cleanup() }, nil
+	}
+	return repoContent(kind, data), none, nil
 }
 
 func repoContent(kind string, data []byte) io.Reader {
@@ -167,7 +243,12 @@ func runRepoCase(spec repoSpec, rng *rand.Rand, res *worker.Result) {
 	defer cancel()
 	rec.cancel = cancel
 	rec.resetCall(data, false, false)
-	content := repoContent(spec.Content, data)
+	content, release, err := repoContentFor(spec.Content, data, spec.Offset, rng)
+	if err != nil {
+		res.Violate("harness:content", err.Error(), spec)
+		return
+	}
+	defer release()
 	cr := doCall(func() (*http.Response, error) {
 		switch spec.Op {
 		case "manifest-ref":
@@ -178,7 +259,7 @@ func runRepoCase(spec repoSpec, rng *rand.Rand, res *worker.Result) {
 	}, rec, false)
 
 	bc := "replayable"
-	if strings.HasPrefix(spec.Content, "oneshot") {
+	if strings.HasPrefix(spec.Content, "oneshot") || strings.Contains(spec.Content, "seeker") || strings.HasPrefix(spec.Content, "file") {
 		bc = "oneshot"
 	}
 	j := judgeCtx{spec: spec, bodyClass: bc, bodyKind: spec.Content, maxRetry: spec.MaxRetry, minWait: spec.MinWait, maxWait: spec.MaxWait,
